@@ -25,7 +25,7 @@ func socketRun(c *Ctx) {
 		l0 := 1 + rng.Intn(12)
 		var fs []FrameSpec
 		for j := 0; j < k; j++ {
-			f := FrameSpec{ID: []uint16{0x0200, 0x0002, 0x0704, 0x0200, 0x7777}[rng.Intn(5)], Phone: ph, Serial: uint16(0x2000 + j)}
+			f := FrameSpec{ID: []uint16{0x0200, 0x0002, 0x0704, 0x0801, 0x0801, 0x7777}[rng.Intn(6)], Phone: ph, Serial: uint16(0x2000 + j)}
 			switch style {
 			case 0: // escape-free, equal length: a shared buffer shows as the same body everywhere
 				f.Body = bytes.Repeat([]byte{byte(0x41 + j)}, l0)
@@ -34,6 +34,12 @@ func socketRun(c *Ctx) {
 				f.Body[0] = 0x7e
 			default:
 				f.Body = RandBody(rng, rng.Intn(30))
+			}
+			if f.ID == 0x0801 { // the 0x8800 reply carries the multimedia id read from the BODY (36 bytes at least)
+				f.Body = RandBody(rng, 36+rng.Intn(30))
+				if style == 0 {
+					f.Body = bytes.Repeat([]byte{byte(0x41 + j)}, 40)
+				}
 			}
 			fs = append(fs, f)
 		}
@@ -96,10 +102,46 @@ func socketRun(c *Ctx) {
 			viol("unstable", "a message handed to a callback changed afterwards (which@when=content now)", strings.Join(res.Changed, ";"),
 				"every delivered message keeps body, raw frame, phone number, id, serial and package numbers while later data arrives and after the close")
 		default:
-			// every reply is addressed with the phone bytes of the message it answers
-			for _, f := range res.Frames {
-				if !f.OK || !bytes.Equal(f.Phone, ph) {
-					viol("reply-bytes", "a reply frame is not addressed to the terminal's phone number", Hx(f.Raw), fmt.Sprintf("phone %x", ph))
+			// every reply is computed from the bytes of the message it answers: addressed with its phone
+			// bytes; 0x8001 echoes its serial and id; 0x8800 carries the multimedia id of ITS body
+			type want struct {
+				id     uint16
+				body   []byte
+				prefix bool
+			}
+			var ws []want
+			open := map[uint16]int{}
+			total := map[uint16]int{}
+			for _, f := range append(append([]FrameSpec{}, fs...), sync) {
+				switch {
+				case f.Frag:
+					total[f.ID] = int(f.Sum)
+					open[f.ID]++
+					if open[f.ID] == total[f.ID] { // the completing packet answers for the whole message
+						ws = append(ws, want{0x8001, []byte{byte(f.Serial >> 8), byte(f.Serial), byte(f.ID >> 8), byte(f.ID), 0}, false})
+					}
+				case f.ID == 0x0801:
+					ws = append(ws, want{0x8800, f.Body[:4], true})
+				case f.ID == 0x7777:
+				default:
+					ws = append(ws, want{0x8001, []byte{byte(f.Serial >> 8), byte(f.Serial), byte(f.ID >> 8), byte(f.ID), 0}, false})
+				}
+			}
+			if len(res.Frames) != len(ws) {
+				viol("reply-count", fmt.Sprintf("%d reply frames for %d answered messages", len(res.Frames), len(ws)), res.String(), "one reply per answered message")
+				break
+			}
+			for k, f := range res.Frames {
+				w := ws[k]
+				ok := f.OK && bytes.Equal(f.Phone, ph) && f.ID == w.id
+				if ok && w.prefix {
+					ok = len(f.Body) >= len(w.body) && bytes.Equal(f.Body[:len(w.body)], w.body)
+				} else if ok {
+					ok = bytes.Equal(f.Body, w.body)
+				}
+				if !ok {
+					viol("reply-bytes", fmt.Sprintf("reply %d is not computed from the message it answers", k), Hx(f.Raw),
+						fmt.Sprintf("id=%04x phone=%x body%s=%x", w.id, ph, map[bool]string{true: " prefix", false: ""}[w.prefix], w.body))
 					break
 				}
 			}
